@@ -111,7 +111,7 @@ def run(tier, seed):
     rng = random.Random(seed)
     thorough = tier == "thorough"
     model_check(ctx)
-    progs = c12.programs(rng, 90 if thorough else 22)
+    progs = c12.programs(rng, 90 if thorough else 22) + [(p, pv, k) for p, pv, k in c12.sibling_graph_programs()][: (3 if thorough else 1)]
     # runs that PAUSE at an interrupt (top level and inside a nested graph): observers must not change that either
     A = IR.func("A", ["x"], ["a"])
     I = IR.interrupt("ask", ["a"], ["ans"], pause_at=[1])
@@ -180,9 +180,26 @@ def run(tier, seed):
                         ctx.violation("other-processor-stream-incomplete", wit,
                                       f"healthy processor received {len(healthy.events)} events, baseline {len(baseline)} (fault {what} {k}, faulty first={first})")
                         continue
-                    if rng.random() < 0.2 and o["status"] != "paused":      # the span-tree grammar is about TERMINATED runs (C12)
+                    if (rng.random() < 0.2 or kind.startswith("siblings")) and o["status"] != "paused":      # the span-tree grammar is about TERMINATED runs (C12)
                         streams.append({"id": len(streams) + 1, "status": "failed" if o["status"] in ("failed", "raised") else o["status"],
                                         "events": healthy.events, "graphnodes": events.graph_node_names(j["prog"])})
+            # the same faults under the interpreter's "warnings are errors" policy (-W error / filterwarnings=error): a processor
+            # failure must not reach the run through the warnings machinery either
+            be, _, _ = predict.try_real(j, warnings_as_errors=True)
+            if "rejected" not in be and outcome(be) == outcome(base):
+                for what, k in (("at", 0), ("at", max(0, n_ev - 1)), ("every", None), ("shutdown", None)):
+                    bad = Faulty(k=k, every=(what == "every"), at_shutdown=(what == "shutdown"), exc=FAILURES[n_faults % len(FAILURES)])
+                    healthy = events.Recorder()
+                    o, _, _ = predict.try_real(j, event_processors=[bad, healthy], warnings_as_errors=True)
+                    n_faults += 1
+                    ctx.count()
+                    wit = {"job": j, "fault": what, "k": k, "faulty_kind": "sync", "faulty_first": True, "warnings": "error", "baseline": outcome(base),
+                           "observed": outcome(o) if "rejected" not in o else o}
+                    if "rejected" in o:
+                        ctx.violation("observer-failure-surfaced", wit, f"processor failure ({what} {k}) escaped the run under the warnings-as-errors policy: {o}")
+                    elif outcome(o) != outcome(base):
+                        d = [x for x in ("status", "values", "err", "calls") if outcome(o)[x] != outcome(base)[x]]
+                        ctx.violation("observer-failure-changed-run:" + "+".join(d), wit, f"processor failing ({what} {k}) changed {d} under the warnings-as-errors policy")
     res, stats = events.validate_streams(streams)
     ctx.add_tlc(stats)
     ctx.traces(len(streams))
